@@ -5,7 +5,7 @@ with VERIF_REPO pointing at it.   usage: tools/refactest.py [name ...]"""
 import json, os, subprocess, sys, tempfile
 from concurrent.futures import ThreadPoolExecutor
 VERIF = os.path.dirname(os.path.dirname(os.path.abspath(__file__)))
-EXPECTED = {"R3-3": {"C01": "R01.2 fails closed: the refactoring moves an indexing `bytecode[1]` into a new helper, where the reviewed justification (arity tested by the caller) has to be re-reviewed"}}
+EXPECTED = {}
 names = sys.argv[1:] or sorted(os.listdir(os.path.join(VERIF, "refactorings")))
 checks = [c["property_id"] for c in json.load(open(os.path.join(VERIF, "MANIFEST.json")))["checks"]]
 wt = tempfile.mkdtemp(prefix="refac-wt-")
